@@ -207,6 +207,37 @@ type Session struct {
 	sessAdv  map[int64]int
 	Waiting  uint64
 	Tag      string
+	// DeadlockVictim: set by a Scheduler (from Block, before it returns) when this session's wait closes a cycle in the
+	// wait-for graph; the wait then ends the way PostgreSQL's deadlock detector ends it: the statement fails with
+	// SQLSTATE 40P01 and the transaction is aborted (Explicit Locking, section 13.3.4 "Deadlocks": "PostgreSQL automatically
+	// detects deadlock situations and resolves them by aborting one of the transactions involved"). Which transaction is
+	// aborted is timing dependent in PostgreSQL; here the scheduler decides.
+	DeadlockVictim bool
+}
+
+// Xid is the id of the session's open transaction (0 when none).
+func (s *Session) Xid() uint64 {
+	if s.tx == nil {
+		return 0
+	}
+	return s.tx.id
+}
+
+// TxDone reports whether transaction xid has finished (committed or rolled back); unknown ids count as finished.
+func (db *DB) TxDone(xid uint64) bool {
+	db.mu.Lock()
+	defer db.mu.Unlock()
+	st := db.tx[xid]
+	return st == nil || st.done
+}
+
+func (s *Session) checkVictim() {
+	if s.DeadlockVictim {
+		s.DeadlockVictim = false
+		s.Waiting = 0
+		s.db.Stats["deadlocks"]++
+		panic(errf("40P01", "deadlock detected"))
+	}
 }
 
 func (db *DB) NewSession() *Session {
@@ -279,6 +310,7 @@ func (s *Session) waitFor(xid uint64) {
 			db.mu.Unlock()
 			db.Sched.Block(s, xid)
 			db.mu.Lock()
+			s.checkVictim()
 		} else {
 			db.cond.Wait()
 		}
@@ -309,6 +341,7 @@ func (s *Session) advisoryLock(key int64, xact bool) {
 			db.mu.Unlock()
 			db.Sched.Block(s, on)
 			db.mu.Lock()
+			s.checkVictim()
 			s.Waiting = 0
 		} else {
 			db.cond.Wait()
